@@ -242,7 +242,7 @@ def unwrap(x):
     if isinstance(x, (bool, int, Fraction)):
         return x
     if isinstance(x, float):
-        return Fraction(x)
+        return V.norm_conc(x)
     if hasattr(x, "item") and getattr(x, "shape", None) == ():
         return unwrap(x.item())
     if isinstance(x, z3.ExprRef):
